@@ -40,7 +40,9 @@ def _is_accumulating(st: ast.AST, var: str) -> Optional[ast.AST]:
             if isinstance(v.right, ast.Name) and v.right.id == var:
                 return v.left
         if isinstance(v, ast.BoolOp) and isinstance(v.op, ast.Or) and len(v.values) == 2 \
-                and isinstance(v.values[0], ast.Name) and v.values[0].id == var:
+                and isinstance(v.values[0], ast.Name) and v.values[0].id == var \
+                and not any(isinstance(x, ast.Call) for x in ast.walk(v.values[1])):
+            # `v = v or f()` would skip f() - and its side effects - once v is set: not an accepted idiom
             return v.values[1]
         if isinstance(v, ast.Call) and isinstance(v.func, ast.Name) and v.func.id == 'max' and len(v.args) == 2:
             if isinstance(v.args[0], ast.Name) and v.args[0].id == var:
@@ -89,7 +91,13 @@ class StatusChain:
             key = f'{fi.module.name}:{fi.qualname}: {norm(d)[:80]}'
             acc = _is_accumulating(d, var)
             contributed = acc if acc is not None else getattr(d, 'value', None)
-            if loops and acc is None:
+            shortcut = isinstance(getattr(d, 'value', None), ast.BoolOp) and isinstance(d.value.op, ast.Or) \
+                and isinstance(d.value.values[0], ast.Name) and d.value.values[0].id == var
+            if loops and acc is None and shortcut:
+                rep.violation(key, fi.loc(d),
+                              f'`{norm(d)[:60]}` short-circuits: once a failure was seen the check of every later graph is skipped, '
+                              f'so its errors are neither found nor recorded in its metadata')
+            elif loops and acc is None:
                 # a plain store inside a loop forgets the status of earlier iterations
                 okc, cv = try_fold(contributed) if contributed is not None else (False, None)
                 rep.violation(key, fi.loc(d),
@@ -129,6 +137,14 @@ class StatusChain:
         if isinstance(expr, ast.IfExp):
             self.check_expr(fi, expr.body, at)
             self.check_expr(fi, expr.orelse, at)
+            return
+        if isinstance(expr, ast.BoolOp):
+            for v in expr.values:
+                self.check_expr(fi, v, at)
+            return
+        if isinstance(expr, ast.BinOp) and isinstance(expr.op, ast.BitOr):
+            self.check_expr(fi, expr.left, at)
+            self.check_expr(fi, expr.right, at)
             return
         rep.violation(f'{fi.module.name}:{fi.qualname}: status value {norm(expr)[:60]}', fi.loc(at),
                       'the status is not drawn from a fixed set of literals in 0..255 (an unbounded value is reduced '
@@ -200,7 +216,7 @@ def r7(ctx: Ctx) -> RuleReport:
         sc.check_expr(main, call.args[0], call)
     rep.analysed['chain'] = sc.chain
     need = {'penman.__main__:process', 'penman.__main__:_check'}
-    if not need <= set(sc.chain):
+    if not need <= set(sc.chain) and not rep.violations():
         raise AnalysisError(f'R7: status chain {sc.chain} no longer reaches process and _check')
     # process() is given args.check
     return rep
